@@ -115,8 +115,8 @@ print('DIGESTS ' + json.dumps(out))
 
 
 @st.composite
-def xproc_case(draw):
-    case = draw(simrun.sim_case(sims=CONT, nmax=12, labels=('str', 'str', 'mixed')))
+def xproc_case(draw, sim=None):
+    case = draw(simrun.sim_case(sims=([sim] if sim else CONT), nmax=12, labels=('str', 'str', 'mixed')))
     if case['tau'] < 0.5:
         case['tau'] = draw(st.sampled_from([1.0, 2.0]))
     nodes = case['gc']['nodes']
@@ -135,14 +135,20 @@ def run_xproc(ctx, sub, n_cases, cases=None):
     given_cases = cases
     cases = []
 
-    @seed(ctx.seed * 31 + 7)
-    @settings(max_examples=n_cases, database=None, deadline=None, suppress_health_check=list(HealthCheck), phases=[Phase.generate])
-    @given(xproc_case())
-    def collect(case):
-        cases.append(case)
+    def collect():
+        per = max(1, n_cases // len(CONT))
+        for k, sim in enumerate(CONT):          # equal quota per simulator
+            got = []
+
+            @seed(ctx.seed * 31 + 7 + k)
+            @settings(max_examples=per, database=None, deadline=None, suppress_health_check=list(HealthCheck), phases=[Phase.generate])
+            @given(xproc_case(sim))
+            def one(case):
+                got.append(case)
+            one()
+            cases.extend(got[:per])
     if given_cases is None:
         collect()
-        cases = cases[:n_cases]
     else:
         cases = list(given_cases)
     os.makedirs(OUT + '/scratch', exist_ok=True)
@@ -201,6 +207,7 @@ def run(ctx):
     ctx.assumptions = ['user callbacks return ordered containers', 'discrete-time simulators are not asserted across hash seeds (the statement allows it)']
     only = getattr(ctx, 'only', None)
     if not only or 'inproc' in only:
-        run_hypothesis(ctx, 'inproc', simrun.sim_case(nmax=20), prop_case, 700 if quick else 30000)
+        for sim in simrun.SIMS:
+            run_hypothesis(ctx, 'inproc', simrun.sim_case(sims=[sim], nmax=20), prop_case, 60 if quick else 2500)
     if not only or 'xproc' in only:
         run_xproc(ctx, 'xproc', 240 if quick else 3000)
